@@ -410,6 +410,11 @@ def build_pool(cs, ctx):
     pool.add("vec", base[8:8 + N], [base[:4], base[N + 12:]],
              "vec[overlapB]", {"vecN", "flow", "f8", "f8vec", "overlap"})
 
+    # ---- selection masks the caller keeps (bool and int), for idx= arguments
+    mk = rs.uniform(size=N) < 0.7
+    pool.add("mask", mk, None, "mask[bool]")
+    view, guards = pool.carve(mk.astype(np.int64), "contig", "mask")
+    pool.add("mask", view, guards, "mask[int64]")
     # ---- ensembles (N, M)
     for j in range(cs.between("nens", 2, 4)):
         lay = cs.choice(f"e{j}.lay", ["contig_exact", "fortran", "strided",
@@ -587,6 +592,12 @@ def build_pool(cs, ctx):
                            -5.0 + rs.uniform(0, nr * 0.5, 6)])
     view, guards = pool.carve(gxy, "contig", "gxy")
     pool.add("gridxy", view, guards, "points inside grid extent")
+    # points exactly on the edges and corners of the grid extent
+    xs = [10.0, 10.0 + 0.5 * nc, 10.0 + 0.5 * (nc - 1)]
+    ys = [-5.0, -5.0 + 0.5 * nr, -5.0 + 0.125]
+    edge = np.array([[x, y] for x in xs for y in ys], dtype=np.float64)
+    view, guards = pool.carve(edge, "contig_exact", "gxyedge")
+    pool.add("gridxy", view, guards, "points on the edges of the grid extent")
     # transforms
     for j in range(cs.between("ntr", 3, 5)):
         cls = cs.choice(f"tr{j}.cls", ["BoxCox2", "BoxCox1lam", "BoxCox1nu",
@@ -741,6 +752,9 @@ def catalogue():
     add("sutils.acf(idx)", [V, ("y", "vec", None)],
         lambda a, o: sutils.acf(a.x, maxlag=2,
                                 idx=np.asarray(a.y) > np.nanmedian(a.y)))
+    add("sutils.acf(idx=mask)", [V, ("mask", "mask", None)],
+        lambda a, o: sutils.acf(a.x, maxlag=o["lag"], idx=a.mask),
+        lambda cs: {"lag": cs.between("lag", 1, 3)})
     add("sutils.lhs", [("pmin", "small", None)],
         lambda a, o: sutils.lhs(o["n"], a.pmin, np.asarray(a.pmin) + 1.0),
         lambda cs: {"n": cs.between("n", 1, 30)})
